@@ -55,12 +55,12 @@ var streams = map[string]Stream{}
 func register(s Stream) { streams[s.Name()] = s }
 
 type Mismatch struct {
-	Case     int      `json:"case"`
-	Line     int      `json:"line"`
-	Script   []string `json:"script"`
-	GoOut    []string `json:"go_out"`
-	ModelOut []string `json:"model_out"`
-	Shrunk   bool     `json:"shrunk"`
+	Case     int       `json:"case"`
+	Line     int       `json:"line"`
+	Script   []string  `json:"script"`
+	GoOut    []string  `json:"go_out"`
+	ModelOut []string  `json:"model_out"`
+	Shrunk   bool      `json:"shrunk"`
 	Findings []Finding `json:"go_oracle_findings"`
 }
 
@@ -78,6 +78,7 @@ type Report struct {
 	Mismatches    []Mismatch     `json:"mismatches"`
 	Findings      []FindingAt    `json:"oracle_findings"`
 	GoPanics      int            `json:"go_panics"`
+	FindingCounts map[string]int `json:"finding_counts"`
 	WallS         float64        `json:"wall_s"`
 	ModelCmd      string         `json:"model_cmd"`
 }
@@ -270,6 +271,7 @@ func main() {
 
 	goOuts := make([][]string, len(scripts))
 	distinct := map[string]bool{}
+	sigCount := map[string]int{}
 	for i, sc := range scripts {
 		o, fs := runGo(s, sc)
 		goOuts[i] = o
@@ -280,9 +282,11 @@ func main() {
 			}
 		}
 		for _, f := range fs {
-			if len(rep.Findings) < 50 {
+			key := f.Prop + "/" + f.Sig
+			if sigCount[key] < 3 && len(rep.Findings) < 300 {
 				rep.Findings = append(rep.Findings, FindingAt{Finding: f, Case: i, Script: sc})
 			}
+			sigCount[key]++
 		}
 		nt, tags := s.Tag(sc, o)
 		for _, t := range tags {
@@ -293,6 +297,7 @@ func main() {
 		}
 	}
 	rep.Distinct = len(distinct)
+	rep.FindingCounts = sigCount
 	for i := 0; i < len(scripts) && len(rep.Samples) < 3; i += 1 + len(scripts)/3 {
 		sc := scripts[i]
 		if len(sc) > 40 {
